@@ -859,7 +859,9 @@ fn main() {
         let (cap, capn) = if !buffered {
             ("-".to_string(), 0)
         } else {
-            match rng.below(8) {
+            match rng.below(9) {
+                8 if kind.contains("unix") => (if rng.chance(50) { ("70000".to_string(), 70000) } else { ("131072".to_string(), 131072) }),
+                8 => ("65507".to_string(), 65507),
                 7 => ("9000".to_string(), 9000),
                 0 => ("d".to_string(), 512),
                 1 => ("0".to_string(), 0),
